@@ -1,4 +1,4 @@
-CONSTANTS IdsS = {1, 2, 4, 11, 22}
+CONSTANTS IdsS = {1, 4, 11}
 MaxLen = 3
 SPECIFICATION Spec
 INVARIANTS Check
